@@ -55,7 +55,10 @@ type classInfo struct {
 // tables and checks that score <-> poker class is a strictly monotone bijection
 // and that the category name is right.
 func RunC03(rep *explore.Report) {
-	rep.Set("rule", "every 5-card subset of the 52- and of the 36-card deck, each under both ranking tables, each in ascending and in reversed card order; the whole enumeration twice: in a fresh process and again after real hands of every variant were played (the evaluator and its ranking tables are process-wide); distinct_nontrivial = distinct (deck, table, poker class) triples whose score was compared against its neighbours in the reference order")
+	rep.Set("rule", "every 5-card subset of the 52- and of the 36-card deck, each under both ranking tables, each in ascending and in reversed card order; first every ordered pair of the 252 hands of a ten-card sub-deck as two evaluations whose results are alive together (sequential, alone in the process); then the whole enumeration twice: in a fresh process and again after real hands of every variant were played (the evaluator and its ranking tables are process-wide); distinct_nontrivial = distinct (deck, table, poker class) triples whose score was compared against its neighbours in the reference order")
+	if runC03Pairs(rep) {
+		return
+	}
 	phase := ""
 	pass := func() {
 		for _, short := range []bool{false, true} {
@@ -232,6 +235,10 @@ func ReplayC03(v *explore.Violation) (bool, string) {
 	var cfg c03cfg
 	if err := json.Unmarshal(v.Config, &cfg); err != nil {
 		return false, err.Error()
+	}
+	if len(v.Signature) > 5 && v.Signature[:5] == "pair:" {
+		sig, msg := evalPair(cfg.Table, cfg.A, cfg.B)
+		return sig == v.Signature, msg
 	}
 	tbl := table(cfg.Table)
 	short := cfg.Table == "short"
